@@ -352,7 +352,8 @@ func (c *clipperBase) fixSelfIntersects(outrec *OutRec) {
 
 	for {
 		if segsIntersect(op2.prev.pt, op2.pt, op2.next.pt, op2.next.next.pt, false) {
-			if segsIntersect(op2.prev.pt, op2.pt, op2.next.next.pt, op2.next.next.next.pt, false) {
+			if segsIntersect(op2.prev.pt, op2.pt, op2.next.next.pt, op2.next.next.next.pt, false) &&
+				PerpendicDistFromLineSqr64(op2.next.next.pt, op2.prev.pt, op2.pt) <= 2 {
 				vEvent("microSelfIntersect", nil, op2.prev.pt, op2.pt, op2.next.next.pt)
 				op2 = duplicateOp(op2, false)
 				op2.pt = op2.next.next.next.pt
